@@ -348,7 +348,18 @@ func DefaultBody(e Entry, form url.Values) string {
 			fmt.Fprintf(&sb, `[%d,"1"]`, int64(t))
 			n++
 		}
-		return fmt.Sprintf(`{"status":"success","data":{"resultType":"matrix","result":[{"metric":{"req":%q},"values":[%s]}]}}`, tag, sb.String())
+		// Several series per answer, and series sets that differ from slice to slice: even 2h windows carry five
+		// series (keys a b d e f), odd ones a single series (key c), so that the sorted merged answer interleaves
+		// the series of different slices and no two slices have a series in common. "key" sorts before "req".
+		keys := []string{"c"}
+		if int64(start)/7200%2 == 0 {
+			keys = []string{"a", "b", "d", "e", "f"}
+		}
+		var series []string
+		for _, k := range keys {
+			series = append(series, fmt.Sprintf(`{"metric":{"key":%q,"req":%q},"values":[%s]}`, k, tag, sb.String()))
+		}
+		return fmt.Sprintf(`{"status":"success","data":{"resultType":"matrix","result":[%s]}}`, strings.Join(series, ","))
 	case strings.HasSuffix(e.Path, "/api/v1/status/config"):
 		return fmt.Sprintf(`{"status":"success","data":{"yaml":"global:\n  scrape_interval: 30s\n  external_labels:\n    req: \"%s\"\n"}}`, tag)
 	case strings.HasSuffix(e.Path, "/api/v1/status/flags"):
